@@ -18,6 +18,8 @@ def ip2i(s):
 
 
 def mac2i(m):
+    if m is None or str(m) == "None":            # a router that found the out-port but no MAC sends the frame with no destination MAC
+        return 0
     return int(str(m).replace(":", ""), 16)
 
 
